@@ -510,11 +510,7 @@ func c17globals(c *core.Ctx, r *core.Report) {
 				if !ok {
 					continue
 				}
-				ld, ok := mu.Map.(*ssa.UnOp)
-				if !ok {
-					continue
-				}
-				n, f := core.FieldOf(ld.X)
+				n, f := core.MapFieldOrigin(mu.Map)
 				if n == nil || n.Obj().Name() != "GlobalNode" || n.Obj().Pkg().Path() != dfPath {
 					continue
 				}
